@@ -120,6 +120,28 @@ def work(item):
             c = curl_operator(VectorField.from_vector(g)).apply_to_basis()
             decide(enc, q, f"curl(grad f)=0:{kind}", pad(c.components), domain(enc, kind, cs), out,
                    {"identity": "curl(grad f) = 0", "system": kind, "gradient": [str(x) for x in g.components]})
+        elif what == "div_grad":
+            # operators CHAINED through the library's own objects: the gradient must come back in the field's system (not in a default
+            # one), so that div(grad f) is the textbook Laplacian of that system
+            enc = new_enc()
+            F = sp.Function("F")(*qs)
+            f = ScalarField.from_expression(F, cs)
+            g = gradient_operator(f)
+            if g.coordinate_system is not cs:
+                out.append({"name": f"grad f is expressed in the field's own system:{kind}", "verdict": "candidate",
+                            "why": f"gradient of a {kind} field comes back in {g.coordinate_system.coord_system_type}"})
+            else:
+                out.append({"name": f"grad f is expressed in the field's own system:{kind}", "verdict": "discharged", "why": "", "trivial": True})
+            got = divergence_operator(VectorField.from_vector(g))
+            a, b, c = qs
+            if kind == "CARTESIAN":
+                want = sp.diff(F, a, 2) + sp.diff(F, b, 2) + sp.diff(F, c, 2)
+            elif kind == "CYLINDRICAL":
+                want = sp.diff(a * sp.diff(F, a), a) / a + sp.diff(F, b, 2) / a**2 + sp.diff(F, c, 2)
+            else:        # (r, azimuth, polar)
+                want = sp.diff(a**2 * sp.diff(F, a), a) / a**2 + sp.diff(sp.sin(c) * sp.diff(F, c), c) / (a**2 * sp.sin(c)) + sp.diff(F, b, 2) / (a**2 * sp.sin(c)**2)
+            decide(enc, q, f"div(grad f) = textbook Laplacian:{kind}", [got - want], domain(enc, kind, cs), out,
+                   {"identity": "div(grad f) = Laplacian", "system": kind})
         elif what == "div_curl":
             enc = new_enc()
             Fs = [sp.Function(f"F{i}")(*qs) for i in range(ncomp)]
@@ -207,6 +229,14 @@ try:
         f = ScalarField.from_expression(rnd_poly(qs), cs)
         c = curl_operator(VectorField.from_vector(gradient_operator(f))).apply_to_basis()
         vals = [num(v) for v in pad(c.components)]; print("curl(grad f) =", vals); bad = any(abs(v) > 1e-20 for v in vals)
+    elif what == "div_grad":
+        fe = rnd_poly(qs); g = gradient_operator(ScalarField.from_expression(fe, cs))
+        if g.coordinate_system is not cs: print("gradient comes back in", g.coordinate_system.coord_system_type); bad = True
+        got = num(divergence_operator(VectorField.from_vector(g))); a, b, c = qs
+        want = {{"CARTESIAN": lambda: sp.diff(fe, a, 2) + sp.diff(fe, b, 2) + sp.diff(fe, c, 2),
+                "CYLINDRICAL": lambda: sp.diff(a * sp.diff(fe, a), a) / a + sp.diff(fe, b, 2) / a**2 + sp.diff(fe, c, 2),
+                "SPHERICAL": lambda: sp.diff(a**2 * sp.diff(fe, a), a) / a**2 + sp.diff(sp.sin(c) * sp.diff(fe, c), c) / (a**2 * sp.sin(c)) + sp.diff(fe, b, 2) / (a**2 * sp.sin(c)**2)}}[kind]()
+        print("div(grad f) =", got, " textbook Laplacian =", num(want)); bad = bad or abs(got - num(want)) > 1e-18
     elif what == "div_curl":
         vf = VectorField.from_vector(Vector([rnd_poly(qs) for _ in range(ncomp)], cs))
         v = num(divergence_operator(curl_operator(vf))); print("div(curl F) =", v); bad = abs(v) > 1e-20
@@ -247,6 +277,7 @@ def run(ctx):
     for kind in KINDS:
         items.append(("curl_grad", kind, 3, timeout))
         items.append(("agree_grad", kind, 3, timeout))
+        items.append(("div_grad", kind, 3, timeout))
         for n in range(4):
             items.append(("div_curl", kind, n, timeout))
             items.append(("agree_div", kind, n, timeout))
